@@ -41,6 +41,14 @@ def lake_build(targets=None):
     return r.returncode == 0, r.stdout
 
 
+def theorem_modules(theorems):
+    p = os.path.join(VERIF, "vlib", "theorem_modules.json")
+    if not os.path.exists(p):
+        return set()
+    m = json.load(open(p))
+    return {m[t] for t in theorems if t in m}
+
+
 # ----------------------------------------------------------------------------- known findings
 def load_known():
     out = []
@@ -243,21 +251,28 @@ def main(argv):
                 if not ok:
                     proof_broken.append("translator %s failed: %s" % (name, msg[-1500:]))
         ok, out = lake_build()
+        audit_imports = None
         if not ok:
-            # which modules failed?
+            # The whole library no longer builds.  Scope the failure to THIS property: its proof obligations
+            # are the modules that define its theorems (and what they import); a break elsewhere (another
+            # property's proofs against a regenerated file, say) is not this property's business.
             failed = re.findall(r"^- (\S+)", out, flags=re.M)
-            mine = [m for m in failed if leanaudit.module_relevant(m, cfg)]
-            drv_ok = os.path.exists(DRV) and ("Driver" not in " ".join(failed))
-            if mine or not drv_ok:
-                proof_broken.append("lake build failed for %s\n%s" % (", ".join(mine or failed), out[-3000:]))
-            obligations.append(("lake-build", not (mine or not drv_ok), ", ".join(failed)))
-            if not drv_ok:
-                # try to at least build the driver (it does not import property proofs)
-                lake_build(["drv"])
+            mods = sorted(theorem_modules(cfg["theorems"]))
+            ok2, out2 = lake_build(mods) if mods else (False, "theorem_modules.json missing")
+            if ok2:
+                obligations.append(("lake-build", True, "library-wide build fails in %s; this property's modules (%d) build" % (", ".join(failed)[:200], len(mods))))
+                audit_imports = mods
+            else:
+                failed2 = re.findall(r"^- (\S+)", out2, flags=re.M)
+                proof_broken.append("lake build failed for %s\n%s" % (", ".join(failed2 or failed), out2[-3000:]))
+                obligations.append(("lake-build", False, ", ".join(failed2 or failed)))
+            # the driver imports the whole model; if it cannot be rebuilt the previously built binary is used
+            okd, _ = lake_build(["drv"])
+            obligations.append(("driver-build", okd or os.path.exists(DRV), "" if okd else "rebuilt failed: previously built driver binary used"))
         else:
             obligations.append(("lake-build", True, ""))
         if not proof_broken or ok:
-            aud = leanaudit.audit(cfg["theorems"], LEAN)
+            aud = leanaudit.audit(cfg["theorems"], LEAN, imports=audit_imports)
             for thm, tok, detail in aud:
                 obligations.append(("theorem:" + thm, tok, detail))
                 if not tok:
